@@ -1,12 +1,16 @@
 (** Case evaluation for the C19 correspondence check. *)
-From Dawn Require Import Config.Model Config.File.
+From Dawn Require Import Config.Model Config.File Config.Session.
 
 Inductive case :=
 | CWrite (c : config) (bytes : str)              (* WriteConfigFile's output *)
 | CLoad (bytes : str) (exp : option config)      (* LoadConfigBytes on bytes the writer produced *)
 | CSemver (v : str) (ok : bool)
 | CClean (p out : str)
-| CRewrite (old : file) (c : config) (bytes : str).  (* the file WriteConfigFile leaves at a path that was in state [old] *)
+| CRewrite (old : file) (c : config) (bytes : str)   (* the file WriteConfigFile leaves at a path that was in state [old] *)
+| CSession (init : fsys) (ops : list op) (loads : list (option config)) (final : list (N * file))
+                                                   (* a process: what its loads returned, the files it left *)
+| CCommand (before : file) (resolved : option (list req)) (after : file).
+                                                   (* dawn get / dawn tidy on a dawn.toml in state [before] *)
 
 Fixpoint list_eqb {A} (eqb : A -> A -> bool) (a b : list A) : bool :=
   match a, b with
@@ -22,6 +26,13 @@ Definition config_eqb (a b : config) : bool :=
   str_eqb (c_name a) (c_name b) && str_eqb (c_version a) (c_version b) &&
   list_eqb str_eqb (c_ignore a) (c_ignore b) && list_eqb req_eqb (c_reqs a) (c_reqs b).
 
+Definition opt_eqb {A} (eqb : A -> A -> bool) (a b : option A) : bool :=
+  match a, b with
+  | None, None => true
+  | Some x, Some y => eqb x y
+  | _, _ => false
+  end.
+
 Definition check_case (c : case) : bool :=
   match c with
   | CWrite cfg bytes => str_eqb (write cfg) bytes
@@ -34,6 +45,10 @@ Definition check_case (c : case) : bool :=
   | CSemver v ok => Bool.eqb (semver_canonical v) ok
   | CClean p out => str_eqb (clean_path p) out
   | CRewrite old cfg bytes => str_eqb (write_config_file old cfg) bytes
+  | CSession init ops loads final =>
+      list_eqb (opt_eqb config_eqb) (results init ops) loads &&
+      forallb (fun fb => opt_eqb str_eqb (fs_get (exec init ops) (fst fb)) (snd fb)) final
+  | CCommand before resolved after => opt_eqb str_eqb (command before (fun _ => resolved)) after
   end.
 
 Definition mismatches (cs : list (N * case)) : list N :=
